@@ -501,6 +501,28 @@ def body(ctx: H.BaseCtx):
                         ctx.expect_model(r, M.mp_array([M.MP.const(1)], ()), "%s with exponent %d and a zero coefficient" % (rname, e))
                 else:
                     ctx.expect_model(r, exp, "%s with exponent %d" % (rname, e))
+        elif op == "special":
+            # native only: coefficients that are complex with tiny / purely imaginary parts, on ladder exponents: a term stays a term
+            if not ctx.symbolic:
+                from .. import special as SP
+
+                def mono(c, e):
+                    m = numpoly.ndpoly(exponents=[[e]], shape=(), names=("q0",), dtype=complex)
+                    m.values[m.keys[0]] = c
+                    return m
+
+                with numpy.errstate(all="ignore"):
+                    for a, b in case["pairs"]:
+                        for c1, c2 in ((2e-8j, 3e-8), (1e-15j, 1.0), (1 + 1e-20j, 2.0), (1j, 1j), (3e-200, 1e-150j)):
+                            try:
+                                r = mono(c1, a) * mono(c2, b)
+                                SP.expect_terms(ctx, r, {(a + b,): numpy.asarray(numpy.complex128(c1) * numpy.complex128(c2))}, "(%s*q0**%d) * (%s*q0**%d)" % (c1, a, c2, b))
+                                s_ = mono(c1, a) + mono(c2, b) if a != b else None
+                                if s_ is not None:
+                                    SP.expect_terms(ctx, s_, {(a,): numpy.asarray(numpy.complex128(c1)), (b,): numpy.asarray(numpy.complex128(c2))}, "(%s*q0**%d) + (%s*q0**%d)" % (c1, a, c2, b))
+                            except Exception as e:
+                                if a + b < 55000:
+                                    ctx.unexpected_exception(e, "complex monomials at exponents %d, %d" % (a, b))
         elif op == "pickle":
             q = pickle.loads(pickle.dumps(p))
             ctx.expect_model(q, mp, "pickle")
@@ -613,6 +635,15 @@ def gen_cases(tier: str, seed: int) -> List[Dict]:
                 add("pow", P("a", ("q0",), [[e], [0]] if e * k < 400 else [[e]]), k=k)
     for e in (-1, -60, 0xD800 - off0, 0xDFFF - off0, 0x110000 - off0, 2 ** 31, 2 ** 32, 2 ** 32 + 5, 2 ** 32 - 1):
         add("reject", P("a", ("q0",), [[1]]), e=e)
+    # packing boundaries: exponent rows whose rank as one machine word (sum e_i * base**i, base = largest exponent + 1) reaches
+    # 2**32 or 2**64 exactly -- unit vectors in the leading indeterminates next to the largest exponent in the last one
+    for maxexp, nn in ((255, 4), (255, 8), (65535, 2), (65535, 3), (65535, 4), (15, 8), (15, 16), (3, 16), (3, 32), (1, 32), (1, 64)):
+        names_ = tuple("q%d" % i for i in range(nn))
+        unit = lambda i, v=1: [v if j == i else 0 for j in range(nn)]
+        rows_a = [unit(0), unit(nn - 1, maxexp), [0] * nn]
+        rows_b = [unit(1 % nn), unit(nn - 1, maxexp), unit(0)]
+        add("align", dict(P("a", names_, rows_a), mode="raw"), dict(P("b", names_, rows_b), mode="raw"), tag_boundary=True)
+    add("special", P("a", ("q0",), [[1]]), pairs=[[3, 4], [0, 1], [68, 69], [200, 400], [30000, 24999]])
     # text files: key characters that are one byte in latin1 but not valid UTF-8 on their own, and the first ones latin1 cannot write
     off = extract_offset()
     for e in sorted({128 - off, 100, 0xC3 - off, 0xE9 - off, 255 - off, 256 - off, 300}):
